@@ -848,6 +848,24 @@ def oracle(ctx):
                  "unchanged by a full recycle " + ("BEFORE the outcome of the validation was committed" if race else
                                                     "after the step was parked") + "; nothing clears the flag",
                  {"replay": name, "trace": r["trace"], "states": r["states"], "stuck": r["stuck"], "after": r["after"]})
+    if ctx.thorough():
+        # the same two histories at system level: the real serve(), real digests, three builds on one graph.db
+        from . import d39_sys
+        for race in (False, True):
+            r = d39_sys.d39_system(race=race)
+            ctx.case(("system", "d39", race), True)
+            name = "system:D39:" + ("race" if race else "sequential")
+            brief = {k: r.get(k) for k in ("precondition", "parked", "differs_from_scratch", "validation_held")}
+            ctx.stats["system_d39_" + ("race" if race else "sequential")] = brief
+            if not r["precondition"] or (race and not r.get("validation_held")):
+                fail("system:d39:witness-not-reproduced", name,
+                     f"the system-level D39 history no longer reaches its precondition (u's stored hash without x.txt"
+                     f"{', validation in flight during the recycle' if race else ''}): {brief}", {"replay": name, **brief})
+            elif r["parked"] or r["differs_from_scratch"]:
+                fail("system:d39:parked-after-unchanged-validation" + (":outcome-committed-after-reattach" if race else ""), name,
+                     f"real `stepup` builds: build 2 ends with rc {r['build2']['rc']}, ./u.py {r['build2']['probe']}, warnings "
+                     f"{r['build2'].get('warning')}; the build from scratch ends with rc {r['scratch']['rc']}",
+                     {"replay": name, "build2": r["build2"], "build3": r["build3"], "scratch": r["scratch"]})
     # deterministic replays of the Coq refutation witnesses (regressions for the fixed D18 and D8)
     r = run(M.replay_d11(), timeout=60)
     ctx.case(("replay", "d11"), True)
